@@ -10,7 +10,8 @@ serialisations the model returns until every one of them is in the table).
 
 ops:
 * `world`: `{md5:[[pre,dig]…], bps:[[stage,name,exe]…], comps:[…], old:bool}` →
-  `{strong:[{ser,hash}|null…], fuzzy:[…]}` through the DAG recursion `Hash.hashes`/`Hash.sers`;
+  `{strong:[{ser,hash}|null…], fuzzy:[…]}` through the DAG recursion `Hash.hashesD`/`Hash.sersD` (`Hash.hashes` on
+  the distinct references of every component: `info_files` is keyed by the absolute reference);
 * `history`: `{md5, bps, comps:[… refs with loc:{kind:direct|produced, p, path}], fs:[[path, node]…],
   ops:[{op:write|touch|remove|rename|reload,…}], paths:[…]}` → `{obs:[{strong, fuzzy, views}…]}`: one observation
   before the first and after every operation (`Hash.states` / `Hash.hashesFs`), `views` = `Hash.view` of `paths`;
@@ -154,7 +155,7 @@ def handle (j : Json) : Except String Json := do
           | some h => jobj [("hash", jchars h)]
           | none => Json.null)
       else
-        jarr (((sers md5 fuzzy bps comps).zip (hashes md5 fuzzy bps comps)).map fun (s, h) => outOne s h)
+        jarr (((sersD md5 fuzzy bps comps).zip (hashesD md5 fuzzy bps comps)).map fun (s, h) => outOne s h)
     return jobj [("strong", side false), ("fuzzy", side true)]
   | "ser" =>
     let image ← getOptChars j "image"
